@@ -1343,9 +1343,11 @@ class C09(core.Check):
                   "without fixed parts the extended view IS the proved view, by construction) and, for EVERY tree and "
                   "every size including (): cursor_agree_x, mouse_reaches_drawn_leaf_x, leaf_rects_inside_canvas_x "
                   "(the canvas of a widget rendered fixed is its packed size), fits_size_kind; one level for widgets "
-                  "with fixed parts: mouse_hits_drawn_child_x, mouse_to_no_other_child_x, move_cursor_iff_child_x.  "
-                  "NOT lifted: cursor_on_requested_row for trees with fixed parts (correspondence and oracle only there; "
-                  "for trees without fixed parts it holds through the bridge).  In run_case the two models are still compared "
+                  "with fixed parts: mouse_hits_drawn_child_x, mouse_to_no_other_child_x, move_cursor_iff_child_x; and "
+                  "cursor_on_requested_row_x: for EVERY tree of the extended model and every size including (), after a "
+                  "successful move that went down to a leaf the tree still fits and the reported cursor is on the "
+                  "requested row (Proofs/GeometryXMove.v: a move keeps the shape of the tree, hence sizing() and packed "
+                  "widths; column_widths with 'pack' columns is focus-independent when the static needs fit).  In run_case the two models are still compared "
                   "with each other on every case without fixed parts.  Oracle only (no model): real Edit / SelectableIcon / "
                   "Button / CheckBox leaves, GridFlow, ListBox, get_pref_col, Padding 'clip'.  Overlay pop-ups "
                   "(PopUpLauncher/PopUpTarget) are not covered.")
@@ -1366,7 +1368,7 @@ class C09(core.Check):
         "extraction: ExtrOcamlBasic only; Z/positive stay Coq datatypes; OCaml 4.13.1; tools/driver/driver.ml",
         "hand-written mirror of the geometry methods and size helpers in Model/Geometry.v (validated by this correspondence)",
         "C19's Model/Layout.v, Proofs/LayoutArith.v, Proofs/LayoutColumns.v, Gen/layout_gen.v (imported read-only; Proofs/GeometryLayoutTie.v proves this model's arithmetic equal to C19's, so a drift of either hand mirror of column_widths breaks the build)",
-        "Model/GeometryX.v (fixed-size paths, 'pack' columns, sizing() of Pile / Columns): hand-written mirror validated by the correspondence; theorems in Proofs/GeometryXProofs.v; identical to the proved model on trees without fixed parts (proved; also compared at run time)",
+        "Model/GeometryX.v (fixed-size paths, 'pack' columns, sizing() of Pile / Columns): hand-written mirror validated by the correspondence; theorems in Proofs/GeometryXProofs.v and Proofs/GeometryXMove.v; identical to the proved model on trees without fixed parts (proved; also compared at run time)",
         "Python oracle, spy leaves and the implementation-side 'fits' walk in harness/props/c09.py",
     ]
     assumptions = [
@@ -1375,7 +1377,6 @@ class C09(core.Check):
         "integer columns for move_cursor_to_coords ('left' / 'right' are not modelled); button-1 press events",
         "pack((maxcol,))[0] == maxcol for every modelled widget (Widget.pack default; Text-like widgets with their own pack are oracle-only)",
         "a widget rendered fixed 'fits' only when its width type is 'pack' (Padding / Overlay) resp. every fixed item fits the width / column it gets; Padding with a given or relative width rendered at size () is excluded (render works, the three other methods raise ValueError: reported)",
-        "cursor_on_requested_row is proved for trees without fixed-size parts only; with fixed parts it is covered by the correspondence and the oracle",
         "leaf contract: a leaf's get_cursor_coords equals the cursor of its own focused rendering; a cursor implies selectable + cursor API",
         "the bottom widget of an Overlay is background: it never receives mouse events (by design of Overlay.mouse_event)",
         "mouse events and cursor moves follow a rendering at the same size; additionally get_cursor_coords and sample presses are sent to a never-rendered tree and to a tree last rendered at another width, and after a focus-moving press get_cursor_coords is compared with the next focused rendering with the canvas cache in use",
